@@ -377,6 +377,48 @@ def c18(ck):
                                         "replies_seen": got.count(b"\0"), "end_of_stream_within_6s": eof, "bridge_exit_while_stdin_open": rc_open})
                 elif rc_open != 0:
                     ck.failures.append({"what": "the bridge did not report success after the service ended the session", "mode": mode, "script": script, "exit": rc_open})
+        # the activated service exits right after a large last reply, the client picks its replies up late and keeps its side
+        # open: everything the service wrote is forwarded before the bridge exits
+        for attempt in range(2 if quick else 6):
+            big = rq(A, ["r", "q" if attempt % 2 else "qh"], "B" * 150000)
+            args = ["--activate", "%s --listen $VARLINK_ADDRESS" % harness_bin("h_actsrv"), "bridge"]
+            p = subprocess.Popen([CLI] + args, stdin=subprocess.PIPE, stdout=subprocess.PIPE, stderr=subprocess.DEVNULL, env=ENV)
+            p.stdin.write(enc(rq(A, ["r"], 1)) + enc(big))
+            p.stdin.flush()
+            time.sleep(0.7)
+            fd = p.stdout.fileno()
+            os.set_blocking(fd, False)
+            got, eof = b"", False
+            t0 = time.time()
+            while not eof and time.time() - t0 < 8:
+                r, _, _ = select.select([fd], [], [], 0.05)
+                if r:
+                    try:
+                        b_ = os.read(fd, 1 << 20)
+                    except BlockingIOError:
+                        continue
+                    if not b_:
+                        eof = True
+                    got += b_
+            try:
+                p.stdin.close()
+            except Exception:
+                pass
+            try:
+                rc_b = p.wait(timeout=4)
+            except subprocess.TimeoutExpired:
+                p.kill()
+                p.wait()
+                rc_b = "hung"
+            p.stdout.close()
+            ck.case("activated-service-exits-after-big-reply|%d" % attempt)
+            ck.count("service_exits_after_big_reply")
+            frames = got.split(b"\0")
+            ok_big = len(frames) == 3 and frames[2] == b"" and len(frames[1]) > 150000
+            if not ok_big or rc_b != 0:
+                ck.failures.append({"what": "an activated service sent a small and a 150 kB reply and exited; the bridge's client (reading late, its side still open) did not "
+                                            "receive both replies completely, or the bridge did not exit successfully", "bytes_received": len(got),
+                                    "complete_messages": got.count(b"\0"), "end_of_stream": eof, "exit": rc_b})
         # upgraded sessions
         sv = sv_par
         for mode in ("resolver", "connect"):
@@ -487,18 +529,23 @@ def c20(ck):
         # the final reply spells out "continues": false
         cases += [(["rf"], True, 1), (["c1", "r", "r", "c0", "rf"], True, "s"), (["rf"], False, 2)]
         # "unix-mode": the documented parameter form unix:/path;mode=0600 names the same socket
-        addrs = [("unix-deep", sv.a), ("tcp", sv.tcp), ("resolver", None), ("unix-mode", sv.a + ";mode=0600"), ("tcp-ipv6", sv.tcp6)]
+        # "activate": no address at all - the service is started by the tool (it logs a line on its standard output and one on its
+        # standard error while starting: neither belongs on the tool's standard output)
+        addrs = [("unix-deep", sv.a), ("tcp", sv.tcp), ("resolver", None), ("unix-mode", sv.a + ";mode=0600"), ("tcp-ipv6", sv.tcp6), ("activate", "ACTIVATE")]
         n = 0
         for sc, more, v in cases:
             form, addr = addrs[n % len(addrs)]
-            color = "on" if n % 4 == 3 else "off"
+            cyc = n // len(addrs)          # options vary per round over the address forms, so every form meets every option
+            color = "on" if (cyc // 2) % 2 == 1 else "off"
             n += 1
             params = {"script": sc, "tag": v}
             method = "org.example.a.Run"
-            url = (addr + "/" + method) if addr else method
+            url = (addr + "/" + method) if addr and addr != "ACTIVATE" else method
             args = ["--color", color]
+            if addr == "ACTIVATE":
+                args += ["--activate", "env VH_NOISY=1 %s --listen $VARLINK_ADDRESS" % harness_bin("h_actsrv")]
             # --debug does not change what is printed on standard output or the exit status
-            if n % 3 == 1:
+            if cyc % 2 == 1:
                 args = ["--debug"] + args
             if addr is None:
                 args += ["--resolver", sv.r]
@@ -513,7 +560,7 @@ def c20(ck):
             err = SGR.sub("", p.stderr.decode("utf-8", "replace"))
             # what the service replies (direct socket)
             r = req(method, params, **({"more": True} if more else {}))
-            direct = sv.direct(addr if addr in (sv.tcp, sv.tcp6) else sv.a, enc(r))   # (the parameter form reaches the same service as sv.a)
+            direct = sv.direct(addr if addr in (sv.tcp, sv.tcp6) else sv.a, enc(r))      # (the activated service is the same scripted service)   # (the parameter form reaches the same service as sv.a)
             replies = [loads(x.decode("utf-8")) for x in frames_of(direct)]
             exp_print, exp_ok = [], True
             complete = False
